@@ -367,6 +367,24 @@ def native_wf():
     import numpy as np, jax
     from jinns.data._DataGenerators import CubicMeshPDEStatio, CubicMeshPDENonStatio
     msgs = []
+    # 1-D border = exactly the pair of end points (end points that are not representable in a narrower float type)
+    for (a_, b_) in ((0.7, 1.1), (-0.3, 0.1)):
+        g = CubicMeshPDEStatio(key=jax.random.PRNGKey(0), n=5, nb=2, omega_batch_size=2, omega_border_batch_size=1, dim=1,
+                               min_pts=(a_,), max_pts=(b_,))
+        ob = np.asarray(g.omega_border, dtype=np.float64).reshape(-1)
+        want = np.asarray(jax.numpy.array([a_, b_]).astype(float), dtype=np.float64)
+        if ob.tolist() != want.tolist():
+            return [f"1-D generator on [{a_}, {b_}]: the stored border is {ob.tolist()}, not the pair of end points {want.tolist()}"]
+    # grid sampling stores exactly the requested number of points (or refuses the request)
+    for n_req in (9, 10, 12, 16, 20):
+        for dim in (1, 2):
+            try:
+                g = CubicMeshPDEStatio(key=jax.random.PRNGKey(0), n=n_req, nb=None, omega_batch_size=2, omega_border_batch_size=None, dim=dim,
+                                       min_pts=(0.0,) * dim, max_pts=(1.0,) * dim, method="grid")
+            except Exception:
+                continue
+            if tuple(np.asarray(g.omega).shape) != (n_req, dim):
+                return [f"grid sampling, dim={dim}, n={n_req} requested: the generator stores an array of shape {tuple(np.asarray(g.omega).shape)}"]
     for (mn, mx) in [((-1.0, 0.5), (2.0, 1.5)), ((0.0, 0.0), (1.0, 1.0)), ((-3.0, -7.0), (-1.0, 4.0)), ((-4.0, 2.0), (-1.0, 3.0)), ((0.0, 10.0), (1.0, 12.0))]:
         g = CubicMeshPDENonStatio(key=jax.random.PRNGKey(2), n=12, nb=8, nt=6, omega_batch_size=4, omega_border_batch_size=2, temporal_batch_size=3,
                                   dim=2, min_pts=mn, max_pts=mx, tmin=-1.0, tmax=2.0)
